@@ -67,6 +67,10 @@ type Flow struct {
 	Change       pbt.Hex   `json:"change"`
 	Std          Rate      `json:"std"`
 	Data         Rate      `json:"data"`
+	// fields the flows' argument structs export and ordinary use leaves at zero
+	Extra       []Fund `json:"extra,omitempty"`        // bid2d: the seller's AcceptBid2DArgs.ExtraUTXOs (P2PKH of the seller key; Key unused)
+	UTXOSeq     uint32 `json:"utxo_seq,omitempty"`     // UTXO.SequenceNumber of every UTXO object handed in
+	OrdUnlocker bool   `json:"ord_unlocker,omitempty"` // the ordinal UTXO object carries the seller's Unlocker as well
 	// informational (how the generator placed the funding relative to its
 	// independently computed fee threshold); the oracle never reads them
 	Target string `json:"target,omitempty"`
@@ -236,13 +240,39 @@ func build(c Flow) (*world, string) {
 		}
 		w.spent[k] = spent{p2pkhOfKey(w.buyers[f.Key]), f.Sats}
 	}
+	for _, f := range c.Extra {
+		if len(f.TxID) != 32 {
+			return nil, "outside domain"
+		}
+		k := outpoint(f.TxID, f.Vout)
+		if _, dup := w.spent[k]; dup {
+			return nil, "duplicate outpoint"
+		}
+		w.spent[k] = spent{p2pkhOfKey(w.seller), f.Sats}
+	}
 	return w, ""
 }
 
 func script(b []byte) *bscript.Script { return bscript.NewFromBytes(append([]byte{}, b...)) }
 
 func (w *world) ordUTXO() *bt.UTXO {
-	return &bt.UTXO{TxID: append([]byte{}, w.c.OrdTxID...), Vout: w.c.OrdVout, LockingScript: script(w.ordScript), Satoshis: w.c.OrdSats}
+	u := &bt.UTXO{TxID: append([]byte{}, w.c.OrdTxID...), Vout: w.c.OrdVout, LockingScript: script(w.ordScript), Satoshis: w.c.OrdSats, SequenceNumber: w.c.UTXOSeq}
+	if w.c.OrdUnlocker && w.seller != nil {
+		var su bt.Unlocker = &unlocker.Simple{PrivateKey: w.seller}
+		u.Unlocker = &su
+	}
+	return u
+}
+
+// extraUTXOs are the seller's own UTXOs offered through AcceptBid2DArgs.ExtraUTXOs.
+func (w *world) extraUTXOs() []*bt.UTXO {
+	var us []*bt.UTXO
+	for _, f := range w.c.Extra {
+		var u bt.Unlocker = &unlocker.Simple{PrivateKey: w.seller}
+		us = append(us, &bt.UTXO{TxID: append([]byte{}, f.TxID...), Vout: f.Vout, LockingScript: script(p2pkhOfKey(w.seller)),
+			Satoshis: f.Sats, Unlocker: &u, SequenceNumber: w.c.UTXOSeq})
+	}
+	return us
 }
 
 func (w *world) fundUTXOs() []*bt.UTXO {
@@ -250,7 +280,7 @@ func (w *world) fundUTXOs() []*bt.UTXO {
 	for _, f := range w.c.Funding {
 		var u bt.Unlocker = &unlocker.Simple{PrivateKey: w.buyers[f.Key]}
 		us = append(us, &bt.UTXO{TxID: append([]byte{}, f.TxID...), Vout: f.Vout, LockingScript: script(p2pkhOfKey(w.buyers[f.Key])),
-			Satoshis: f.Sats, Unlocker: &u})
+			Satoshis: f.Sats, Unlocker: &u, SequenceNumber: w.c.UTXOSeq})
 	}
 	return us
 }
@@ -302,7 +332,7 @@ func (w *world) run() (tx *bt.Tx, stage string, err error) {
 		prev = append(prev, w.ordUTXO())
 		prev = append(prev, fu[2:]...)
 		tx, err = ord.AcceptBidToBuy1SatOrdinal2Dummies(bg, &ord.ValidateBid2DArgs{PreviousUTXOs: prev, BidAmount: c.Price, ExpectedFQ: quote(c.Std, c.Data)},
-			&ord.AcceptBid2DArgs{PSTx: pstx, SellerReceiveOrdinalScript: script(c.SellerScript), OrdinalUnlocker: su})
+			&ord.AcceptBid2DArgs{PSTx: pstx, SellerReceiveOrdinalScript: script(c.SellerScript), OrdinalUnlocker: su, ExtraUTXOs: w.extraUTXOs()})
 		return tx, "accept", err
 	}
 	return nil, "", fmt.Errorf("unknown variant %q", c.Variant)
@@ -501,6 +531,15 @@ func checkFlow(ctx *pbt.Ctx, c Flow, fee bool) error {
 	if c.OrdSats > 1 {
 		ctx.Label("ordinal:>1sat")
 	}
+	if len(c.Extra) > 0 {
+		ctx.Label("args:extra-utxos")
+	}
+	if c.UTXOSeq != 0 {
+		ctx.Label("args:utxo-sequence-number")
+	}
+	if c.OrdUnlocker {
+		ctx.Label("args:ordinal-utxo-unlocker")
+	}
 	if c.Std.Sat > c.Std.Bytes {
 		ctx.Label("rate:>1sat/B")
 	} else if c.Std.Sat == 0 {
@@ -560,7 +599,7 @@ func genOutScript(t *rapid.T, label string, p2pkhOnly, noData bool) pbt.Hex {
 	}
 	switch {
 	case k <= 8:
-		return p2pkhOfHash(gen.Bytes(t, 20, label+"_h"))
+		return p2pkhOfHash(genFree(t, 20, label+"_h"))
 	case k <= 10:
 		n := gen.EdgeLen(t, 300, label+"_len", 0, 1, 24, 26, 75, 76, 252, 253, 254, 255, 256)
 		raw := gen.FillBytes(t, n, label+"_raw")
@@ -621,7 +660,7 @@ func genFlowWith(t *rapid.T, variant string, base *Flow, sh Share) Flow {
 	for i := 0; i < nk; i++ {
 		c.BuyerKeys = append(c.BuyerKeys, genKey(t, "buyer"))
 	}
-	c.OrdTxID = gen.Bytes(t, 32, "ord_txid")
+	c.OrdTxID = genFree(t, 32, "ord_txid")
 	c.OrdVout = uint32(rapid.IntRange(0, 100).Draw(t, "ord_vout"))
 	c.OrdSats = 1
 	if listing && rapid.IntRange(0, 9).Draw(t, "ord_multi") == 0 {
@@ -739,7 +778,7 @@ func genFlowWith(t *rapid.T, variant string, base *Flow, sh Share) Flow {
 	}
 
 	mk := func(sats uint64) Fund {
-		f := Fund{TxID: gen.Bytes(t, 32, "txid"), Vout: uint32(rapid.IntRange(0, 5).Draw(t, "vout")), Sats: sats, Key: rapid.IntRange(0, nk-1).Draw(t, "key")}
+		f := Fund{TxID: genFree(t, 32, "txid"), Vout: uint32(rapid.IntRange(0, 5).Draw(t, "vout")), Sats: sats, Key: rapid.IntRange(0, nk-1).Draw(t, "key")}
 		if rapid.IntRange(0, 7).Draw(t, "same_txid") == 0 && len(c.Funding) > 0 {
 			f.TxID = append(pbt.Hex{}, c.Funding[len(c.Funding)-1].TxID...)
 		}
@@ -782,6 +821,21 @@ func genFlowWith(t *rapid.T, variant string, base *Flow, sh Share) Flow {
 	if base != nil && sh.Funding {
 		c.BuyerKeys, c.Funding, c.Target, c.Delta = base.BuyerKeys, base.Funding, "shared-funding", 0
 	}
+	// the exported fields ordinary use leaves at zero
+	if c.Variant == "bid2d" && rapid.IntRange(0, 2).Draw(t, "extra") == 0 {
+		for i, n := 0, rapid.IntRange(1, 2).Draw(t, "extra_n"); i < n; i++ {
+			f := Fund{TxID: gen.Bytes(t, 32, "extra_txid"), Vout: uint32(rapid.IntRange(0, 5).Draw(t, "extra_vout")), Sats: rapid.Uint64Range(1, 100000).Draw(t, "extra_sats")}
+			for used[outpoint(f.TxID, f.Vout)] {
+				f.Vout++
+			}
+			used[outpoint(f.TxID, f.Vout)] = true
+			c.Extra = append(c.Extra, f)
+		}
+	}
+	if rapid.IntRange(0, 3).Draw(t, "utxo_seq") == 0 {
+		c.UTXOSeq = rapid.SampledFrom([]uint32{1, 0xfffffffe, 0xffffffff, 0x80000000, 12345}).Draw(t, "utxo_seq_v")
+	}
+	c.OrdUnlocker = rapid.IntRange(0, 3).Draw(t, "ord_unlocker") == 0
 	return c
 }
 
